@@ -51,6 +51,21 @@ def View.apply (v : View) : Out → Option View
     if v.hasComp c.tid c.eid then some { v with comps := v.comps.map fun x => if x.tid == c.tid && x.eid == c.eid then c else x } else none
   | o => v.applyCore o
 
+/-- apply a broadcast the way a client must under concurrency: what it is told may already be in the state it was handed
+    (or not be there any more), so adds are upserts and deletes of unknown things are ignored -/
+def View.applyLenient (v : View) : Out → View
+  | .joinBcast _ pid => if v.pids.contains pid then v else { v with pids := v.pids ++ [pid] }
+  | .leaveBcast pid => { v with pids := v.pids.filter (· != pid) }
+  | .entityAddBcast _ e => if v.hasEnt e.id then v else { v with ents := v.ents ++ [e] }
+  | .entityDeleteBcast _ eid => v.dropEntity eid
+  | .poseBcast _ eid p => { v with ents := v.ents.map fun x => if x.id == eid then { x with pose := p } else x }
+  | .compAddBcast _ c | .compUpdateBcast _ c =>
+    { v with comps := (v.comps.filter fun x => !(x.tid == c.tid && x.eid == c.eid)) ++ [c] }
+  | .compDeleteBcast _ tid eid => { v with comps := v.comps.filter fun c => !(c.tid == tid && c.eid == eid) }
+  | .actionBcast _ a => { v with actions := setAction v.actions a }
+  | .assetAddBcast _ a => { v with assets := setAsset v.assets a }
+  | _ => v
+
 def View.applyAll (v : View) : List Out → Option View
   | [] => some v
   | m :: ms => (v.apply m).bind (·.applyAll ms)
@@ -232,6 +247,27 @@ def VState.step (m : VState) (st : IStep) : VState :=
       match st.outcome with
       | .ok => m
       | _ => m.drop c
+    | .conc tasks =>
+      -- several requests handled at once: every connection folds what it was sent, in the order it was sent it
+      let conns := ((st.ds.map fun (d : Delivery) => d.1) ++ tasks.map Prod.fst).eraseDups
+      conns.foldl (fun (m : VState) (k : Nat) =>
+        let inbox := inboxOf k st.ds
+        let mine := (tasks.find? fun (t : Nat × Option Req) => t.1 == k).bind Prod.snd
+        match joinedAs inbox, handedState inbox with
+        | some (uuid, pid), some (ps, es, cs) =>
+          let v0 : View := { uuid, pid, pids := ps, ents := es, comps := cs, actions := (handedActions inbox).getD [], assets := (handedAssets inbox).getD [] }
+          -- what it was sent before the join response belongs to the session it left or is covered by the state it is
+          -- handed afterwards (a change precedes its relay, the snapshot follows the response)
+          let after := (inbox.dropWhile fun (o : Out) => match o with | .joinResp .. => false | _ => true).drop 1
+          m.put { conn := k, view := after.foldl View.applyLenient v0 }
+        | some _, none => m.drop k
+        | none, _ =>
+          match m.find k with
+          | some x =>
+            let v := inbox.foldl View.applyLenient x.view
+            let v := match mine with | some r => v.own r inbox | none => v
+            m.put { x with view := v }
+          | none => m) m
     | .disconnect c => (m.deliverOthers c st.ds).drop c
     | .recv c _ =>
       match st.outcome with
